@@ -28,3 +28,38 @@ Proof.
   exists (mkArr 2 [Live 104; Live 0]), 5, 0.
   eexists. eexists. split; [vm_compute; reflexivity|]. vm_compute. tauto.
 Qed.
+
+(* adoption: the adopted block is the state the initializer-list constructor builds *)
+Lemma construct_at_all : forall (vals : list Z) (pre : list (slot Z)) (k : nat),
+  fst (construct_at (pre ++ repeat Raw (length vals + k)) (Zlen pre) vals) = pre ++ map Live vals ++ repeat Raw k.
+Proof.
+  induction vals as [|v vs IH]; intros pre k.
+  - cbn. reflexivity.
+  - cbn [construct_at length map Nat.add repeat].
+    destruct (construct_at (wr (pre ++ Raw :: repeat Raw (length vs + k)) (Zlen pre) (Live v)) (Zlen pre + 1) vs) as [d' ev] eqn:E.
+    cbn [fst].
+    assert (W : wr (pre ++ Raw :: repeat Raw (length vs + k)) (Zlen pre) (Live v) = (pre ++ [Live v]) ++ repeat Raw (length vs + k)).
+    { unfold wr, inb, Zlen. rewrite app_length. cbn [length].
+      assert (H1 : (0 <=? Z.of_nat (length pre)) = true) by (apply Z.leb_le; lia).
+      assert (H2 : (Z.of_nat (length pre) <? Z.of_nat (length pre + S (length (repeat (@Raw Z) (length vs + k))))) = true) by (apply Z.ltb_lt; lia).
+      rewrite H1, H2. cbn [andb]. rewrite Nat2Z.id.
+      rewrite <- app_assoc. cbn [app].
+      clear. induction pre as [|p ps IHp]; cbn; [reflexivity | f_equal; exact IHp]. }
+    rewrite W in E.
+    assert (L : Zlen pre + 1 = Zlen (pre ++ [Live v])) by (unfold Zlen; rewrite app_length; cbn [length]; lia).
+    rewrite L in E.
+    specialize (IH (pre ++ [Live v]) k). rewrite E in IH. cbn [fst] in IH. rewrite IH.
+    rewrite <- app_assoc. reflexivity.
+Qed.
+
+Lemma adopt_is_list_state : forall vals, adopt vals = fst (ctor_list vals).
+Proof.
+  intro vals. unfold adopt, ctor_list.
+  assert (H : fst (construct_at (repeat Raw (Z.to_nat (Zlen vals))) 0 vals) = map Live vals).
+  { pose proof (construct_at_all vals [] 0) as H0.
+    replace (length vals + 0)%nat with (length vals) in H0 by lia.
+    change (Zlen (@nil (slot Z))) with 0 in H0. cbn [app repeat] in H0.
+    rewrite app_nil_r in H0. unfold Zlen. rewrite Nat2Z.id. exact H0. }
+  destruct (construct_at (repeat Raw (Z.to_nat (Zlen vals))) 0 vals) as [d ev].
+  cbn [fst] in *. rewrite H. reflexivity.
+Qed.
